@@ -174,7 +174,7 @@ func main() {
 	child.Register("directed", runDirected)
 	child.Main()
 	r := ev.Start("C05", "exploration")
-	r.SetRule("same generator as C03 (independent seeds): executions of real rings (memory/AOF/SQLite) with single-writer clients and 1-3 churn goroutines; at quiescence (pointer oracle reached) every live node's RangeKeys(0,0) and ListKeys('') are read; a quarter of the executions also hold lease-only keys that expire (1 s TTL, real time) before a second churn phase moves their ranges; distinct+non-trivial = hash of the interleaving of membership hook events across nodes, and separately the set of kinds of membership operations whose windows overlapped ({join,leave} x {join,leave} x ring distance adjacent / one node between / farther, with or without a failed attempt), for executions with at least one completed join/leave and one acknowledged write; keys are biased to many (16-40) so that every node owns some; a fifth of the executions additionally store 260-560 write-once ballast keys before the churn, so that hand-overs move hundreds of keys; plus directed hook-ordered schedules: a member leaves while the periodic tasks are parked (its successor holds its keys and still names it), a node then joins right behind it through that successor; after convergence every stored key must sit on its owner")
+	r.SetRule("same generator as C03 (independent seeds): executions of real rings (memory/AOF/SQLite) with single-writer clients and 1-3 churn goroutines; at quiescence (pointer oracle reached) every live node's RangeKeys(0,0) and ListKeys('') are read; a quarter of the executions also hold lease-only keys that expire (1 s TTL, real time) before a second churn phase moves their ranges; distinct+non-trivial = hash of the interleaving of membership hook events across nodes, and separately the set of kinds of membership operations whose windows overlapped ({join,leave} x {join,leave} x ring distance adjacent / one node between / farther, with or without a failed attempt), for executions with at least one completed join/leave and one acknowledged write; keys are biased to many (16-40) so that every node owns some; a fifth of the executions additionally store 260-560 write-once ballast keys before the churn, so that hand-overs move hundreds of keys, and every eleventh holds 2600-3400 of them on a ring that starts with one node (one join or leave moves more than 512 / 1024 keys); plus directed hook-ordered schedules: a member leaves while the periodic tasks are parked (its successor holds its keys and still names it), a node then joins right behind it through that successor; after convergence every stored key must sit on its owner")
 	r.Assume("ownership ranges are computed from the sorted ids of the live nodes after the pointer oracle has been reached")
 	rng := r.Rand("cases-c05")
 	n := r.Pick(24, 300)
@@ -203,6 +203,13 @@ func main() {
 		}
 		if i%5 == 2 {
 			c.Ballast = 260 + (i*37)%300 // every hand-over moves hundreds of keys
+		}
+		if i%11 == 6 {
+			// a ring of at most three nodes holding thousands of keys: one join or leave hands over more
+			// than any plausible batch size (512, 1024) at once
+			c.Ballast = 2600 + (i*37)%800
+			c.MaxNodes = 3
+			c.Initial = 1
 		}
 		if !r.Quick() && i%6 == 3 && c.Backend == int(ringlab.Memory) {
 			// the real RPC path between the nodes (RemoteNode, twirp over HTTP/2, production timeouts)
